@@ -396,6 +396,34 @@ def samTone (pol sfl sfc sfu eq fs fc fm phl phc phu : α) (offset j : Nat) : α
   + samPart pol (sfc * (nat 1 / nat 2) / eq) fs (fc + fm * nat 0) phc offset j
   + samPart pol (sfu * (nat 1 / nat 4) / eq) fs (fc + fm * nat 1) phu offset j
 
+/-- `Modulator.transform` / `EnvelopeFactory.next`: `env * token`, sample by sample -/
+def modulate (env tok : List α) : List α := List.zipWith (· * ·) env tok
+
+/-- one chunk of `Cos2EnvelopeFactory(…, input_factory=ToneFactory(…)).next(len env)` at sample offset `offset`:
+the envelope samples (cells: `stim.envelope`, whose own law is property C09) times the tone -/
+def rampedTone (env : List α) (pol sf fs f ph : α) (offset : Nat) : List α :=
+  modulate env ((List.range env.length).map (tone pol sf fs f ph offset))
+
+/-- `np.fft.rfftfreq(n, d=1/fs)[k]`: `k * (1.0/(n*d))` -/
+def rfftfreq (n : Nat) (fs : α) (k : Nat) : α := nat k * (nat 1 / (nat n * (nat 1 / fs)))
+
+/-- bin `k` of the spectrum `_click_waveform` hands to `csd_to_signal`: `psd * exp(-1j*freq*2*pi*0.5)` with
+`psd[k] = sf` inside the pass band `klo ≤ k < khi` (the mask `(freq >= flb) & (freq < fub)`), `0` elsewhere;
+`sf` is the mean scale factor (`equalize=False`). -/
+def clickSpec (n : Nat) (fs sf : α) (klo khi k : Nat) : Cx α :=
+  Cx.smul (if klo ≤ k ∧ k < khi then sf else nat 0) (cis (-(rfftfreq n fs k * nat 2 * pi * (nat 1 / nat 2))))
+
+/-- `lb = int(round(n/2 - n_window/2))` (Python rounds halves to even), for `n_window ≤ n` -/
+def clickLb (n nw : Nat) : Nat :=
+  let d := n - nw
+  let q := d / 2
+  if d % 2 = 0 then q else if q % 2 = 0 then q else q + 1
+
+/-- sample `i` of `bandlimited_click(fs, flb, fub, window, level, level_unit='rms', equalize=False)` for
+`n = int(round(fs))` even, `n_window = int(round(window*fs)) ≤ n`: `util.csd_to_signal(csd)[lb + i]`. -/
+def blClick (n nw : Nat) (fs sf : α) (klo khi : Nat) (i : Nat) : α :=
+  csdToSignal (n / 2) (clickSpec n fs sf klo khi) (clickLb n nw + i)
+
 end Stim
 
 section Filter
@@ -442,6 +470,34 @@ factory starts from `lfilter_zi(b, a)` (not scaled with the level) and discards 
 factories start from `lfilter_zi(taps)` and discard exactly the `ntaps-1` samples it can reach. -/
 def filtStim (polIn polOut low high b0 : α) (bt atl z0 : List α) (discard : Nat) (u : List α) : List α :=
   ((lfilter b0 bt atl z0 (u.map fun r => polIn * uniform low high r)).1.drop discard).map (· * polOut)
+
+/-! ### wav playback (`stim.load_wav`, `WavFileFactory`) -/
+
+inductive WavNorm
+  | none | pe | rms
+  deriving Repr, DecidableEq
+
+/-- integer PCM → `-1.0 … 1.0`: `(waveform - ii.min) / (ii.max - ii.min) * 2 - 1` -/
+def pcmToUnit (lo hi v : α) : α := (v - lo) / (hi - lo) * nat 2 - nat 1
+
+/-- `waveform.max()` by a left scan -/
+def lmaxFrom (m : α) : List α → α
+  | [] => m
+  | x :: t => lmaxFrom (if ltb m x then x else m) t
+
+/-- `util.rms` of a list: `np.mean(s**2)**0.5` -/
+def rmsL (x : List α) : α := sqrt (sumList (x.map fun v => v * v) / nat x.length)
+
+/-- `normalization=None / 'pe' / 'rms'`: as is, `waveform / waveform.max()`, `waveform / util.rms(waveform)` -/
+def wavNormalize : WavNorm → List α → List α
+  | .none, x => x
+  | .pe, [] => []
+  | .pe, a :: t => (a :: t).map (· / lmaxFrom a t)
+  | .rms, x => x.map (· / rmsL x)
+
+/-- `load_wav(fs, file, level, calibration, normalization)` at the file's own sampling rate:
+normalise, then `waveform *= sf` with `sf = calibration.get_sf(1e3, level)` -/
+def loadWav (norm : WavNorm) (sf : α) (x : List α) : List α := (wavNormalize norm x).map (· * sf)
 
 end Filter
 
